@@ -49,7 +49,28 @@ fn string_of(v: &Value) -> String {
     String::from_utf8(bytes_of(v)).expect("script strings must be valid UTF-8")
 }
 
+/// No correct answer is longer than the longest string of the script: longer
+/// items (a decoder gone wrong can produce megabytes of garbage per item) are
+/// logged cut to this many bytes, which still differs from every correct answer.
+static ITEM_CAP: std::sync::atomic::AtomicUsize = std::sync::atomic::AtomicUsize::new(usize::MAX);
+
+fn longest_list(v: &Value) -> usize {
+    match v {
+        Value::Array(a) => {
+            if a.iter().all(|x| x.is_number()) {
+                a.len()
+            } else {
+                a.iter().map(longest_list).max().unwrap_or(0)
+            }
+        }
+        Value::Object(o) => o.values().map(longest_list).max().unwrap_or(0),
+        _ => 0,
+    }
+}
+
 fn enc(s: &[u8]) -> Value {
+    let cap = ITEM_CAP.load(std::sync::atomic::Ordering::Relaxed);
+    let s = if s.len() > cap { &s[..cap] } else { s };
     Value::Array(s.iter().map(|&b| json!(b)).collect())
 }
 
@@ -218,6 +239,7 @@ fn merge(mut a: Value, b: Value) -> Value {
 }
 
 pub fn run(ep: &Value, ctx: &mut Ctx) {
+    ITEM_CAP.store(longest_list(&ep["ops"]).saturating_add(9), std::sync::atomic::Ordering::Relaxed);
     let mut st = St::None;
     let hdr = json!({"op": "BEGIN", "fam": "rcl", "src": ep.get("src").cloned().unwrap_or(json!("?"))});
     ctx.begin(&hdr);
